@@ -547,10 +547,19 @@ func runIndepFast(d Desc, ct *ctor, seq []mutStep) (fails []failure, outcome str
 	w := build(d)
 	var cp any
 	isView := d.Sl != nil || len(d.Path) > 0
-	srcBefore := obs(w.obj, true)
-	parentBefore := ""
-	if isView {
-		parentBefore = obs(w.parent, true)
+	// before the constructor runs the source is observed through element reads only (obsElems:
+	// no iterator walk, which would compact a sparse source before it is copied); the full
+	// observation it is compared with afterwards is that of an untouched second instance
+	// (checked once per (object, constructor): in the case without mutations)
+	ctorChecks := len(seq) == 0
+	var elemsBefore, parentElemsBefore, srcBefore, parentBefore string
+	if ctorChecks {
+		elemsBefore = obsElems(w.obj)
+		if isView {
+			parentElemsBefore = obsElems(w.parent)
+		}
+		ref := refObs(d)
+		srcBefore, parentBefore = ref[0], ref[1]
 	}
 	if perr := try(func() { cp = ct.f(w.obj) }); perr != "" {
 		if d.class() == "owning" || d.class() == "scalar" {
@@ -565,10 +574,27 @@ func runIndepFast(d Desc, ct *ctor, seq []mutStep) (fails []failure, outcome str
 		return fmt.Sprintf("%s|%s|%s|%s|%s", kind, d.Kind, d.Sto, viewClass(d), ctorFamily(ct.name))
 	}
 	// the constructor must not change its source
-	if s := obs(w.obj, true); s != srcBefore {
+	if !ctorChecks {
+		// nothing
+	} else if s := obsElems(w.obj); s != elemsBefore {
+		return []failure{{keyPfx("ctor-modifies-source"), fmt.Sprintf("%s changed its source %v: before %s, after %s", ct.name, d, elemsBefore, s)}}, "fail"
+	}
+	if s := ""; ctorChecks && isView && func() bool { s = obsElems(w.parent); return s != parentElemsBefore }() {
+		return []failure{{keyPfx("ctor-modifies-parent"), fmt.Sprintf("%s changed the parent of its source %v: before %s, after %s", ct.name, d, parentElemsBefore, s)}}, "fail"
+	}
+	// a deep copy has the elements of its source, also the zero-valued ones that carry
+	// derivatives only (compared before any iterator has walked either side)
+	if ct.full && len(seq) == 0 {
+		if s := obsElems(cp); s != elemsBefore && !strings.Contains(elemsBefore, "PANIC") {
+			return []failure{{keyPfx("not-equal"), fmt.Sprintf("%s of %v is not equal to its source: source %s, copy %s", ct.name, d, elemsBefore, s)}}, "fail"
+		}
+	}
+	if !ctorChecks {
+		// nothing
+	} else if s := obs(w.obj, true); s != srcBefore {
 		return []failure{{keyPfx("ctor-modifies-source"), fmt.Sprintf("%s changed its source %v: before %s, after %s", ct.name, d, srcBefore, s)}}, "fail"
 	}
-	if s := ""; isView && func() bool { s = obs(w.parent, true); return s != parentBefore }() {
+	if s := ""; ctorChecks && isView && func() bool { s = obs(w.parent, true); return s != parentBefore }() {
 		return []failure{{keyPfx("ctor-modifies-parent"), fmt.Sprintf("%s changed the parent of its source %v: before %s, after %s", ct.name, d, parentBefore, s)}}, "fail"
 	}
 	// observational equality
